@@ -806,7 +806,7 @@ def check(run):
     conv_experiment(run, unit, r, quick)
     # ---------------- end to end: ABF through the engine simulator, the files it writes
     e2e(run, r, quick, exes["c16e2e"], model)
-    shared_abf(run, r, quick)
+    shared_abf(run, r, quick, model)
     run.cov["correspondence"].update({"oned_ti_cases": len(cases), "div_cases": len(dlines), "atimes_cases": len(alines),
                                       "solve_cases": len(slines), "solve_converged": nconv})
 
@@ -936,14 +936,18 @@ def gen_e2e(r, k):
     steps = []
     for _ in range(r.randint(8, 30)):
         z = [v["lo"] + (r.randrange(v["n"]) + r.choice([0.25, 0.5, 0.75])) * v["w"] for v in vars_]
+        for d_, v in enumerate(vars_):
+            if not v["per"] and r.random() < 0.12:      # just outside by a quarter bin, exactly on a boundary, far outside
+                z[d_] = r.choice([v["lo"] - 0.25 * v["w"], v["hi"] + 0.25 * v["w"], v["lo"], v["hi"], v["hi"] + 64.0, v["lo"] - 64.0])
         e = [V.dyadic(r, -8, 8) * fscale for _ in range(nd)]
         steps.append((z, e))
     ext = r.random() < 0.35          # extended-Lagrangian variables: CZAR estimator, <prefix>.czar.grad / .czar.pmf
     # files written by the outputFreq schedule during the run (no post_run) instead of at the end
     freq = r.random() < 0.3
+    ofreq = r.choice([3, 4, 5, 6, 7])          # outputFreq, not only powers of two
     if freq:
-        nst = len(steps) - (len(steps) % 4)
-        steps = steps[:max(4, nst)]
+        while len(steps) < 2 * ofreq + 1:
+            steps.append(steps[r.randrange(len(steps))])
     # force timing: same-step total forces, or lagged by one step (as in NAMD) with or without the engine including the
     # Colvars forces in what it reports.  With lagged forces force_bin is the previous step's bin: the trajectories visit a
     # random bin at every step, so bin != force_bin at most steps (2-D/3-D: a sample that lands in force_bin while the
@@ -951,12 +955,18 @@ def gen_e2e(r, k):
     same = r.random() < 0.4
     incl = r.random() < 0.5
     return {"id": "e2e%d" % k, "nd": nd, "vars": vars_, "steps": steps, "full": r.choice([1, 2, 4]), "apply": r.random() < 0.5,
-            "ext": ext, "freq": freq, "same": same, "incl": incl, "fscale": fscale,
+            "ext": ext, "freq": freq, "ofreq": ofreq, "same": same, "incl": incl, "fscale": fscale,
+            # absolute step numbers beyond 2^31, 2^32, 2^53 (vsim setstep) with schedules that are not powers of two
+            "step0": r.choice([0, 0, 2 ** 31 + 5, 2 ** 32 + 3, 2 ** 53 - 64, 2 ** 62 - 1000]),
+            "pabf_freq": r.choice([1, 3, 5]),
+            # a configuration that is rejected in the middle of the session (unknown variable), the run goes on
+            "badconf": r.random() < 0.2,
             # a custom `grid { ... }` block in the abf bias: half the width, one bin cut off at both ends (non-periodic variables)
             "gridblock": (not ext) and all(not v["per"] for v in vars_) and r.random() < 0.35,
             # entry points that rebuild or use the divergence: state file (text/binary) between two runs, inputPrefix,
             # projected ABF (integration at every step)
-            "flow": "plain" if (freq or ext) else r.choice(["plain", "plain", "restart-text", "restart-binary", "inputprefix", "pabf" if nd >= 2 else "plain"])}
+            "flow": "plain" if (freq or ext) else r.choice(["plain", "plain", "restart-text", "restart-binary", "restart-buffer", "restart-string",
+                                                                "inputprefix", "pabf" if nd >= 2 else "plain"])}
 
 
 def e2e_scenario(c):
@@ -991,24 +1001,33 @@ def e2e_scenario(c):
     head = ["natoms %d" % nd, "samestep %d" % (1 if c.get("same", True) else 0), "includecv %d" % (1 if c.get("incl", True) else 0),
             "temperature 300", "dt 1"]
     if c.get("freq"):
-        head += ["restartfreq 4"]
+        head += ["restartfreq %d" % c.get("ofreq", 4)]
+    first = (["setstep %d" % c["step0"]] if c.get("step0") else [])
+    def mid(lst):
+        """steps with, optionally, a rejected configuration in the middle"""
+        if not c.get("badconf") or len(lst) < 2:
+            return steps(lst)
+        h = len(lst) // 2
+        return steps(lst[:h]) + ["config EOF", "abf {", "  name rejected", "  colvars no_such_variable", "}", "EOF"] + steps(lst[h:])
     half = len(c["steps"]) // 2
-    if flow in ("restart-text", "restart-binary"):
+    if flow in ("restart-text", "restart-binary", "restart-buffer", "restart-string"):
         # a run, a state file, a fresh module that loads it (the divergence must be rebuilt from the loaded grids), a second run
-        L = head + ["prefix %s" % c["id"], "new"] + config() + steps(c["steps"][:half])
-        L += ["save %s %s.st" % ("binary" if flow == "restart-binary" else "text", c["id"]), "new"] + config() + ["load %s.st" % c["id"]]
+        L = head + ["prefix %s" % c["id"], "new"] + config() + first + mid(c["steps"][:half])
+        binary = flow in ("restart-binary", "restart-buffer")
+        loadcmd = {"restart-buffer": "loadbuf %s.st", "restart-string": "loadstr %s.st"}.get(flow, "load %s.st") % c["id"]
+        L += ["save %s %s.st" % ("binary" if binary else "text", c["id"]), "new"] + config() + [loadcmd]
         # (the step at which the state was saved is repeated after the load with the same coordinates, as an engine does:
         #  Colvars compares the recomputed values with the saved ones)
         L += steps(c["steps"][max(half - 1, 0):])
     elif flow == "inputprefix":
         # a first run writes <id>a.count/.grad; a second bias starts from them through inputPrefix and goes on
-        L = head + ["prefix %sa" % c["id"], "new"] + config() + steps(c["steps"][:half]) + ["postrun"]
+        L = head + ["prefix %sa" % c["id"], "new"] + config() + first + mid(c["steps"][:half]) + ["postrun"]
         L += ["prefix %s" % c["id"], "new"] + config(["  inputPrefix %sa" % c["id"]]) + steps(c["steps"][half:])
     elif flow == "pabf":
         # projected ABF: the surface is integrated at every step and the bias force is its finite-difference gradient
-        L = head + ["prefix %s" % c["id"], "new"] + config(["  pABFintegrateFreq 1"]) + steps(c["steps"])
+        L = head + ["prefix %s" % c["id"], "new"] + config(["  pABFintegrateFreq %d" % c.get("pabf_freq", 1)]) + first + mid(c["steps"])
     else:
-        L = head + ["prefix %s" % c["id"], "new"] + config() + steps(c["steps"])
+        L = head + ["prefix %s" % c["id"], "new"] + config() + first + mid(c["steps"])
     if not c.get("freq"):
         L.append("postrun")
     if nd >= 2:
@@ -1056,7 +1075,18 @@ def e2e(run, r, quick, exe=None, model=None):
             elif "CONFIG err=input" not in o:
                 run.violation("e2e:run", "unexpected outcome for the single-bin periodic configuration: %s" % o[-300:], rep)
             continue
-        if rc != 0 or ("POSTRUN err=ok" not in o and not c.get("freq")) or "CONFIG err=ok" not in o or "err=input" in o or "err=file" in o or "LOAD err=error" in o:
+        o_chk = o
+        if c.get("badconf"):
+            run.dist("e2e:rejected-configuration-mid-session")
+            o_chk = "\n".join(l for l in o.splitlines() if not (l.startswith("CONFIG err=") and "err=ok" not in l))
+        if c.get("step0"):
+            run.dist("e2e:first-step>=2^31")
+        if c.get("flow", "").startswith("restart"):
+            want_it = c.get("step0", 0) + max(len(c["steps"]) // 2 - 1, 0)
+            got = [l for l in o.splitlines() if l.startswith("LOAD ")]
+            if not got or ("it=%d" % want_it) not in got[0]:
+                run.violation("e2e:restart-step", "after loading the state (%s) the module is at %s, expected step %d" % (c["flow"], got[:1], want_it), rep)
+        if rc != 0 or ("POSTRUN err=ok" not in o and not c.get("freq")) or "CONFIG err=ok" not in o or "err=input" in o_chk or "err=file" in o_chk or "LOAD err=error" in o:
             run.violation("e2e:run", "the ABF scenario did not run to the end (rc=%d): %s" % (rc, (o + e)[-300:]), rep)
             continue
         dc = [l for l in o.splitlines() if l.startswith("DIVCHECK ")]
@@ -1171,12 +1201,30 @@ def file_oracle(run, d, stem, gext, pext, cext, rep):
                       % (rn, 1e-4 * bn, nsamp, stem + pext), rep)
 
 
-def shared_abf(run, r, quick):
-    """multiple-walker (shared) ABF through the walker harness of C14 (socket replica interface): 2-3 walkers in lock step,
-    gradients exchanged every sharedFreq steps; at the end every walker writes its LOCAL grids and local_pmf
-    (<prefix>.count/.grad/.pmf, integrated from set_div) and walker 0 the collected ones (<prefix>.all.*, divergence kept
-    incrementally and re-set after every exchange).  Same file oracle as for a single walker."""
-    import importlib.util, shutil
+def divcheck_oracle(run, line, what, rep, model=None, tag=""):
+    """DIVCHECK / DIVCHECK-LOCAL line: the divergence array held by the PMF object vs set_div() of its gradient grids"""
+    parts = line.split(" ", 1)[1].split("|")
+    inc, bat = parse_floats(parts[3].split()), parse_floats(parts[4].split())
+    nsam = sum(int(x) for x in parts[2].split())
+    if not same(inc, bat):
+        badi = [i for i, (x, y) in enumerate(zip(inc, bat)) if x != y and not (x != x and y != y)][:6]
+        run.violation("e2e:incremental-vs-batch", "%s (%d samples): the divergence array the PMF was integrated from differs from set_div() of the gradient "
+                      "grids beside it at flat index(es) %s: held %s, batch %s [%s]" % (what, nsam, badi, [inc[i] for i in badi], [bat[i] for i in badi], tag), rep)
+    if model:
+        ml = "DIVSTATE " + parts[0].strip() + " | " + parts[1].strip() + " | " + parts[2].strip()
+        rcm, mo, em = V.run_lines(model, [ml])
+        if not mo or not same(parse_floats(mo[0].split()[1:]), inc):
+            run.mismatch("abf-site-divergence", tag + ": " + ml[:300], " ".join(parts[3].split()[:12]), (mo[0] if mo else em)[:300])
+    return nsam
+
+
+def shared_abf(run, r, quick, model=None):
+    """multiple-walker (shared) ABF through the walker harness of C14 (socket replica interface; the walkers are c16e2e
+    processes): 2-3 walkers in lock step, gradients exchanged every sharedFreq steps; in half of the cases every walker is
+    restarted from a state file BETWEEN two sharing steps and the output is written before the next one.  At the end every
+    walker writes its LOCAL grids and local_pmf (<prefix>.count/.grad/.pmf) and walker 0 the collected ones (<prefix>.all.*).
+    File oracle on every written .pmf/.grad pair; divcheck on the collected and on the local PMF objects."""
+    import shutil
     sp = os.path.join(V.ROOT, "props", "C14")
     try:
         sys.path.insert(0, sp)
@@ -1187,19 +1235,21 @@ def shared_abf(run, r, quick):
     finally:
         if sp in sys.path:
             sys.path.remove(sp)
-    try:
-        exe = V.build_prog("c14walk", ["props/C14/unit.cpp"])
-    except V.InfraError as ex:
-        run.notes.append("shared ABF stream skipped: c14walk does not build (%s)" % str(ex)[-200:])
-        return
+    exe = V.build_prog("c16e2e", PROGS["c16e2e"])
     base = os.path.join(V.BUILD, "scratch", "C16sh")
-    for k in range(2 if quick else 12):
+    for k in range(3 if quick else 16):
         n = r.choice([2, 2, 3])
         nd = r.choice([2, 2, 3])
         nb = [r.randint(2, 3) for _ in range(nd)]
         wd = r.sample([0.5, 1.0, 0.25], nd)
-        F = r.choice([2, 3, 4])
-        nsteps = F * r.randint(2, 4) + r.randint(0, F - 1)
+        F = r.choice([3, 4, 5])
+        restart = (k % 2 == 0)
+        # T1 steps (numbered 0 .. T1-1) with the last one strictly between two sharing steps; after the restart that step is
+        # repeated and `extra` more are made, all before the next multiple of sharedFreq
+        rem = r.randint(1, F - 1)
+        T1 = F * r.randint(1, 3) + rem + 1          # last step number = F*m + rem
+        extra = r.randint(0, F - 1 - rem)
+        nsteps = T1 + extra
         dirs = []
         for i in range(n):
             dd = os.path.join(base, "c%d" % k, "w%d" % i)
@@ -1215,24 +1265,35 @@ def shared_abf(run, r, quick):
         setup_l = ["natoms %d" % nd, "samestep 1", "includecv 1", "prefix sh", "new", "config EOF"] + conf + ["EOF", "show cv 0 energy 0 bias 0 atomf 0"]
         sched = [[[(r.randrange(nb[d]) + r.choice([0.25, 0.5, 0.75])) * wd[d] for d in range(nd)] for _ in range(n)] for _ in range(nsteps)]
         forces = [[[V.dyadic(r, -8, 8) for d in range(nd)] for _ in range(n)] for _ in range(nsteps)]
-        rep = {"kind": "shared", "n": n, "setup": setup_l, "positions": sched, "forces": forces}
+        rep = {"kind": "shared", "n": n, "setup": setup_l, "positions": sched, "forces": forces, "sharedFreq": F,
+               "restart_after_step": (T1 - 1) if restart else None, "steps": nsteps}
         run.count("shared:%d" % k, True)
-        run.dist("shared-abf:n=%d,nd=%d,sharedFreq=%d" % (n, nd, F))
+        run.dist("shared-abf:n=%d,nd=%d,sharedFreq=%d,%s" % (n, nd, F, "restart-between-sharing-steps" if restart else "no-restart"))
+        def lines(t):
+            def f(i):
+                L = []
+                for d in range(nd):
+                    L.append("pos %d 0 0 %s" % (d + 1, V.hexf(sched[t][i][d])))
+                    L.append("eforce %d 0 0 %s" % (d + 1, V.hexf(forces[t][i][d])))
+                return L + ["step"]
+            return f
         try:
             with W.Team(exe, n, dirs, timeout_ms=8000) as T:
                 res = T.all_do(setup_l, 60.0)
                 if not all(any(x.startswith("CONFIG err=ok") for x in rr) for rr in res):
                     run.violation("shared:config", "shared ABF configuration failed: %s" % res[0][-3:], rep)
                     continue
-                for t in range(nsteps):
-                    def lines(i):
-                        L = []
-                        for d in range(nd):
-                            L.append("pos %d 0 0 %s" % (d + 1, V.hexf(sched[t][i][d])))
-                            L.append("eforce %d 0 0 %s" % (d + 1, V.hexf(forces[t][i][d])))
-                        return L + ["step"]
-                    T.all_do(lines, 60.0)
-                res = T.all_do(["postrun"], 60.0)
+                for t in range(T1):
+                    T.all_do(lines(t), 60.0)
+                if restart:
+                    res = T.all_do(["save %s sh.st" % r.choice(["text", "binary"])] + setup_l + ["load sh.st"], 60.0)
+                    if not all(any(x.startswith("LOAD err=ok") for x in rr) for rr in res):
+                        run.violation("shared:restart", "a shared ABF walker could not be restarted from its state: %s" % [rr[-3:] for rr in res], rep)
+                        continue
+                    T.all_do(lines(T1 - 1), 60.0)        # the engine repeats the step at which the state was saved
+                for t in range(T1, nsteps):
+                    T.all_do(lines(t), 60.0)
+                res = T.all_do(["postrun", "divcheck a", "divcheck a local"], 60.0)
                 if not all(any(x.startswith("POSTRUN err=ok") for x in rr) for rr in res):
                     run.violation("shared:postrun", "post_run of a shared ABF walker failed: %s" % [rr[-2:] for rr in res], rep)
                     continue
@@ -1242,6 +1303,12 @@ def shared_abf(run, r, quick):
             continue
         for i in range(n):
             file_oracle(run, dirs[i], "sh", ".grad", ".pmf", ".count", dict(rep, walker=i, files="local"))
+            for x in res[i]:
+                if x.startswith("DIVCHECK-LOCAL ") and "none" not in x.split()[1:2]:
+                    divcheck_oracle(run, x, "shared ABF walker %d, LOCAL PMF%s" % (i, ", restarted between two sharing steps" if restart else ""),
+                                    dict(rep, walker=i), model, "shared c%d w%d local" % (k, i))
+                elif x.startswith("DIVCHECK ") and "none" not in x.split()[1:2]:
+                    divcheck_oracle(run, x, "shared ABF walker %d, collected PMF" % i, dict(rep, walker=i), model, "shared c%d w%d" % (k, i))
         if os.path.exists(os.path.join(dirs[0], "sh.all.pmf")):
             file_oracle(run, dirs[0], "sh.all", ".grad", ".pmf", ".count", dict(rep, walker=0, files="all"))
             run.dist("shared-abf:collected-files-checked")
